@@ -226,7 +226,9 @@ def gen_rel(rng, base, prefer_nested=False):
     return Renderer(None).query(["q", "$", segs], top=True)
 
 
-_LEAF = st.one_of(st.sampled_from(FALSY), st.sampled_from([1, 2, "a", "b", True, 1.5]))
+# strings that spell JSON arrays / objects (or start like one) are strings: as matches they are not containers
+JSONISH = ['{"a": 1}', "[10, 20]", '{"a": [1, 2], "x": 0}', "[[1], [2]]", "{", "[1", "{}", "[]", '"a"', "a[0]", "x{y}"]
+_LEAF = st.one_of(st.sampled_from(FALSY), st.sampled_from([1, 2, "a", "b", True, 1.5]), st.sampled_from([1, "a"] + JSONISH))
 _NAMES = st.one_of(st.sampled_from(["a", "b", "c", "x"]), st.sampled_from(["0", "1", "2", "-1", "10", "01"]))
 
 
@@ -296,6 +298,22 @@ def t_fixed():
     return stats
 
 
+def t_strings():
+    """matches that are strings spelling JSON (not containers): no projection, no error, in every style"""
+    stats = Stats()
+    n = 0
+    doc = {"s": JSONISH, "o": dict(("k%d" % i, v) for i, v in enumerate(JSONISH)), "mixed": [JSONISH[0], {"a": 1}, JSONISH[1], [10, 20]], "a": JSONISH[0]}
+    for mq in ("$.s[*]", "$.o.*", "$.mixed[*]", "$..*", "$.a", "$.s[0]", "$.mixed[0,1]", "$..[?@ != 1]"):
+        for ex in (["a"], ["[0]"], ["*"], ["a", "[0]"], ["..*"], ["x"], ["a[0]"], ["[1:]"]):
+            for style in STYLES:
+                for compiled in (False, True):
+                    judge(stats, copy.deepcopy(doc), mq, ex, style, compiled, "strings")
+                    n += 1
+            stats.nt("strings", mq, canon(ex))
+    stats.subspaces.append({"name": "8 match queries over string matches that spell JSON x 8 expression sets x 3 styles x {text, compiled}", "size": n, "exhaustive": True})
+    return stats
+
+
 def t_long():
     """projections out of arrays of 200 elements and objects of 100 members: sparse two- and three-digit indices, long selections"""
     stats = Stats()
@@ -316,7 +334,7 @@ def t_long():
 
 
 def tasks(tier, seed):
-    ts = [{"name": "fixed", "fn": "t_fixed"}, {"name": "long", "fn": "t_long"}]
+    ts = [{"name": "fixed", "fn": "t_fixed"}, {"name": "long", "fn": "t_long"}, {"name": "strings", "fn": "t_strings"}]
     n = 1500 if tier == "quick" else 25000
     for k in range(15):
         ts.append({"name": "random-%d" % k, "fn": "t_random", "kw": {"seed": mix(seed, ID, k), "n": n}})
